@@ -4,7 +4,7 @@
    `oracle` : the property's laws judged on the implementation's outputs alone (written with different
               primitives than the model: index arithmetic, firstn/skipn, explicit membership). *)
 From Coq Require Import List NArith ZArith Bool.
-From VRL Require Import Base.Bytes Base.Value Base.Lit Model.CodecUtf8 Model.CaseTables Model.StrFns Model.CollFns.
+From VRL Require Import Base.Bytes Base.Value Base.Lit Model.CodecUtf8 Model.CaseTables Model.StrFns Model.CollFns Model.Casing.
 Import ListNotations.
 
 Inductive opk := OUpcase | ODowncase | OCasing | OStrip | OSplit | OJoin | OStartsWith | OEndsWith | OContains
@@ -68,7 +68,12 @@ Definition model_run (op : opk) (args : list value) : list res :=
       end
   | OCasing =>
       match args with
-      | [VBytes _] => repeat RUnmodelled 10     (* convert_case crate: not modelled; laws judged by the oracle *)
+      | [VBytes s] =>
+          (* convert_case crate: modelled on printable ASCII only (Model/Casing.v); elsewhere the oracle alone speaks *)
+          if forallb printable s then
+            flat_map (fun f => [bres (f s); bres (f (f s))])
+                     [camelcase; pascalcase; snakecase; screamingsnakecase; kebabcase]
+          else repeat RUnmodelled 10
       | [_] => repeat RErr 10
       | _ => []
       end
